@@ -325,6 +325,10 @@ func (g *c06Gen) hello() *c06HelloCase {
 	default:
 		h.Sid = g.bytes(32)
 	}
+	if r.Chance(0.03) { // longer than TLS allows, still a one-byte length: the walk must cope
+		h.Sid = g.bytes(r.Range(33, 255))
+		g.stats.Inc("hello.sid_over_32")
+	}
 	h.Suites = g.bytes(2 * r.Range(1, 20))
 	if r.Chance(0.1) {
 		h.Suites = g.bytes(2 * r.Range(100, 300))
@@ -332,6 +336,10 @@ func (g *c06Gen) hello() *c06HelloCase {
 	h.Comp = []byte{0}
 	if r.Chance(0.1) {
 		h.Comp = []byte{1, 0}
+	}
+	if r.Chance(0.03) {
+		h.Comp = nil
+		g.stats.Inc("hello.no_compression_methods")
 	}
 	c := &c06HelloCase{h: h, expect: "nf", class: "nosni"}
 	type item struct {
@@ -432,6 +440,32 @@ func (g *c06Gen) hello() *c06HelloCase {
 	if r.Chance(0.1) { // an empty extension as the very last one
 		other(uint16(r.Range(1, 60)), nil)
 		g.stats.Inc("hello.empty_last_ext")
+	}
+	if r.Chance(0.08) { // 4-16 KB hellos (many PSK identities, ECH, large padding), also exactly at
+		// the sizes where the pooled sniff buffer has to grow
+		target := []int{4096, 8192, 12288, 16384}[r.Intn(4)] + r.Range(-3, 3)
+		if r.Chance(0.4) {
+			target = r.Range(4097, 16384)
+		}
+		if target > 16384+5 {
+			target = 16384 + 5
+		}
+		tmp := *h
+		tmp.Exts = nil
+		for _, it := range items {
+			tmp.Exts = append(tmp.Exts, it.e)
+		}
+		if n := target - 5 - len(tmp.Handshake()) - 4; n >= 0 {
+			typ := uint16([]int{41, 21, 0xfe0d}[r.Intn(3)])
+			at := r.Intn(len(items) + 1)
+			d := make([]byte, n)
+			if typ != 21 {
+				d = g.bytes(n)
+			}
+			it := item{e: c06Ext{typ, d}, text: fmt.Sprintf("o%d:%s", typ, c06Hex(d))}
+			items = append(items[:at:at], append([]item{it}, items[at:]...)...)
+			g.stats.Inc(fmt.Sprintf("hello.big.%dk", (target+1023)/1024))
+		}
 	}
 	var texts []string
 	decided := false
